@@ -77,6 +77,10 @@ QUERIES = [
     ([Filter("revoked", "!=", True), Filter("type", "!=", "tool")], lambda d: d["type"] == "identity"),
     # an id whitelist that spans two types, each possibly with several versions
     ([Filter("id", "in", [IDS[0], IDS[3], IDS[2]])], lambda d: d["id"] in (IDS[0], IDS[3], IDS[2])),
+    # ... with fewer ids than one of them has versions, and with an id stored in the old flat layout next to versioned ones
+    ([Filter("id", "in", [IDS[3], IDS[0]])], lambda d: d["id"] in (IDS[0], IDS[3])),
+    ([Filter("id", "in", [LEGACY["id"], IDS[2], IDS[1]])], lambda d: d["id"] in (LEGACY["id"], IDS[2], IDS[1])),
+    ([Filter("id", "=", IDS[0]), Filter("type", "in", ["identity", "tool"])], lambda d: d["id"] == IDS[0]),
 ]
 
 
